@@ -559,8 +559,8 @@ avx_rule_ldreslinl_avx2 (OrcCompiler *compiler, void *user,
       // ptr += offset << 2
       // 000000fd  lea     qword ptr [%r8+%rdx*4], %r8
       // keeping only the exponent for the remaining ops
-      orc_x86_emit_add_reg_reg_shift (compiler, 8, compiler->gp_tmpreg,
-          src->ptr_register, 2);
+      orc_x86_emit_add_reg_reg_shift (compiler, compiler->is_64bit ? 8 : 4,
+          compiler->gp_tmpreg, src->ptr_register, 2);
       orc_x86_emit_and_imm_reg (compiler, 4, 0xffff, src->ptr_offset);
     }
   }
